@@ -220,6 +220,25 @@ def run_case(case, seed):
                 if lead == ("basis",):
                     break  # one order suffices for the big basis block
 
+    # ---- object history: a multi-image that has already been transformed (and asked for its extents) gets its blocks
+    #      replaced in place (item assignment) by images of OTHER extents with the same pixel count; the action on the
+    #      re-filled object must again be the defining formula for its current contents
+    if D > 1 and tuple(sp) != tuple(sp[::-1]):
+        sp_r = tuple(sp[::-1])
+        mi = geom.MultiImage({(k, p): jnp.asarray(A0[None])}, D, (True,) * D)
+        mi.get_spatial_dims()
+        mi.times_group_element(B[-1])
+        newblk = ident(sp_r + (D,) * k, 7)[None]
+        mi[(k, p)] = jnp.asarray(newblk)
+        for g in B:
+            r = mi.times_group_element(g)
+            evals += 1
+            exp = ref_action(newblk, p, g, D, lead=1)
+            got = np.asarray(r[(k, p)])
+            if got.shape != exp.shape or not np.array_equal(got, exp) or tuple(r.get_spatial_dims()) != rotated_dims(sp_r, g):
+                bad(f"C02/history/MultiImage/refilled/{gclass(g)}", f"after item assignment of blocks with extents {sp_r} to a multi-image that held extents {tuple(sp)}: times_group_element != defining formula for g={g.tolist()}", g=g.tolist())
+                break
+
     # ---- (iii) (gh).A == g.(h.A) and (iv) inverse, computed entirely with the library
     left = B if case["pairs"] == "all" else _generators(D) + [g.T for g in _generators(D)]
     for h in B:
